@@ -283,6 +283,37 @@ def rule_reset(ctx, repo):
             if Q.has("$p.restore()", lp2, e2):
                 ok = True
     ctx.check(ok, "C11.reset", "System._p_restore", "all models x all numeric parameters restored", "_p_restore no longer covers every numeric parameter", p.W())
+    # "back to the state after set-up, before power flow": the DAE returns to the state of DAE.__init__ -- every size counter of the
+    # array/counter table at zero and the time at the not-initialised sentinel (equations switch on `dae_t < 0`)
+    DAEF = "andes/variables/dae.py"
+    i_ = F.method(repo, "DAE", "__init__", DAEF)
+    d = F.method(repo, "DAE", "reset", DAEF)
+    tab, t0 = None, None
+    for n in walk_noscope(i_.fn):
+        if isinstance(n, ast.Assign) and dotted(n.targets[0]) == "self._array_and_counter" and isinstance(n.value, ast.Dict):
+            tab = sorted({v.value for v in n.value.values})
+        m = Q.match("self.t = np.array($v, dtype=float)", n) if isinstance(n, ast.Assign) else None
+        if m:
+            t0 = src(m["v"])
+    if tab is None or t0 is None:
+        raise AnalysisError("DAE.__init__: array/counter table or the time sentinel vanished")
+    zeroed = set()
+    for n in walk_noscope(d.fn):
+        if isinstance(n, ast.Assign) and isinstance(n.value, (ast.Constant, ast.Tuple)):
+            for t in n.targets:
+                for x in (t.elts if isinstance(t, ast.Tuple) else [t]):
+                    dd = dotted(x) or ""
+                    if dd.startswith("self.") and (src(n.value) == "0" or (isinstance(n.value, ast.Tuple) and all(src(e_) == "0" for e_ in n.value.elts))):
+                        zeroed.add(dd[5:])
+    missing = [c for c in tab if c not in zeroed]
+    ctx.check(not missing, "C11.reset", "DAE.reset/counters", "every size counter of _array_and_counter (%s) is zeroed" % ", ".join(tab),
+              "DAE.reset leaves the counter(s) %s at their old value: set-up after a reset allocates new slots behind the old ones, which "
+              "nobody owns any more" % ", ".join(missing), d.W())
+    tset = [src(c.args[0]) for c in calls_in(d.fn) if dotted(c.func) == "self.set_t" and c.args] + \
+        [src(Q.match("self.t = np.array($v, dtype=float)", n)["v"]) for n in walk_noscope(d.fn) if isinstance(n, ast.Assign) and Q.match("self.t = np.array($v, dtype=float)", n)]
+    ctx.check(bool(tset) and all(float(x) == float(t0) for x in tset), "C11.reset", "DAE.reset/time", "time returns to the sentinel %s of a system that was never initialised" % t0,
+              "DAE.reset sets the time to %s, a fresh DAE has %s: equations that switch on `dae_t < 0` (PQ) are evaluated in their time-domain form "
+              "by the next power flow" % (tset, t0), d.W())
 
 
 def run(ctx):
@@ -290,7 +321,7 @@ def run(ctx):
     ctx.rule("C11.invariant", "v == vin*k after to_array / set_pu_coeff / restore / both branches of Model.alter; Group.alter delegates", 6)
     ctx.rule("C11.tconst", "time-constant alteration reaches dae.Tf and TDS.Teye for every governed state, unconditionally", 5)
     ctx.rule("C11.export", "export reads the input-base view and refreshes the cached view first (dominance)", 5)
-    ctx.rule("C11.reset", "restore before setup on reset", 3)
+    ctx.rule("C11.reset", "restore before setup on reset; DAE back to its constructed state (counters, time sentinel)", 5)
     ctx.assume("'takes effect in the next residual evaluation' beyond these data-flow facts is declined")
     repo = Repo()
     rule_coeffs(ctx, repo)
